@@ -400,6 +400,9 @@ pub fn eval_serde_range(req: &str, a_s: &str) -> Case {
     let text = serde_json::to_string(&a).unwrap();
     let back: Result<Range<u32>, _> = serde_json::from_str(&text);
     let mut fail = None;
+    if segs_of(&a) != parse_segs(a_s) {
+        fail = Some("deserializing the bound-pair encoding of these segments yields other segments".to_string());
+    }
     match &back {
         Ok(b) => {
             if *b != a {
